@@ -871,6 +871,60 @@ def gen_C18(rng, nops=400):
     return "\n".join(L) + "\n"
 
 
+def gen_C18_growing(rng):
+    """histories whose maximum request grows over time: equal-sized chunks are
+    recycled in adjacent runs (which merge into one hole larger than anything
+    requested so far), then a request arrives that is a new maximum of about the
+    size of that hole -- the point where the grid managers re-file their holes"""
+    L = ["init"]
+    style = rng.choice(["orig", "orig", "array", "array", "heap", "malloc"])
+    gran = rng.choice([4, 8])
+    minsize = rng.choice([5, 5, 4, 6])
+    L.append("mm new M %s %d %d" % (style, gran, minsize))
+    live = []
+    nid = 0
+    base = rng.randint(minsize, 9)
+    for phase in range(rng.randint(2, 5)):
+        n = rng.randint(4, 9)
+        for _ in range(n):
+            sz = base if rng.random() < 0.8 else rng.randint(minsize, base)
+            L.append("mm req M %d" % sz)
+            live.append((nid, sz))
+            nid += 1
+        L.append("mm check M")
+        # recycle a run of neighbours (ids are handed out in address order while nothing is reused)
+        if len(live) >= 3:
+            run = rng.randint(2, min(4, len(live) - 1))
+            st = rng.randint(1, len(live) - run)
+            victims = live[st:st + run]
+            del live[st:st + run]
+            if rng.random() < 0.5:
+                victims.reverse()
+            hole = 0
+            for i, sz in victims:
+                L.append("mm rec M %d" % i)
+                hole += sz
+            L.append("mm check M")
+            # a new maximum around the size of the merged hole (headers make it a little larger)
+            for _ in range(rng.randint(1, 3)):
+                sz = max(minsize, hole + rng.choice([-2, -1, 0, 0, 1, 2, 3]))
+                L.append("mm req M %d" % sz)
+                live.append((nid, sz))
+                nid += 1
+                L.append("mm check M")
+            base = max(base, hole + 3)
+            base = min(base, 200)
+    rng.shuffle(live)
+    for i, _ in live[: len(live) // 2]:
+        L.append("mm rec M %d" % i)
+    L.append("mm check M")
+    for _ in range(6):
+        L.append("mm req M %d" % rng.randint(minsize, base))
+    L.append("mm check M")
+    L.append("mm del M")
+    return "\n".join(L) + "\n"
+
+
 def rand_mask(rng, f):
     out = []
     for sz in f.dom.sizes:
@@ -1570,7 +1624,7 @@ def gen_C16(rng):
     def after():
         for e in held:
             ctx.emit("show %s" % e)
-        for f in (S1, R1, S2, I1, J1):
+        for f in ctx.forests:
             ctx.emit("audit %s" % f.name)
         x = ctx.fresh("ok")
         ctx.emit("apply %s S1 %s a a2" % (x, rng.choice(SETOPS)))
@@ -1603,6 +1657,30 @@ def gen_C16(rng):
         held.append(k)
         ctx.emit("apply %s I1 %s %s %s" % (ctx.fresh("x"), rng.choice(["div", "mod"]), k, z))
     misuses.append(divzero)
+
+    # EV+ : subtracting +infinity, found below the root, with the result directed into an
+    # edge that already holds a function (it must still hold it afterwards)
+    E1 = Forest("E1", d1, False, "int", "evp", rng.choice(RULES_SET), rand_opts(rng))
+    ctx.emit(E1.decl())
+    ctx.forests.append(E1)
+
+    def evcoll(name, mode, deflt, vals, n):
+        parts = ["coll", name, "E1", mode, deflt]
+        for _ in range(n):
+            parts += [";"] + rand_pos_set(rng, d1, rng.choice([0, .3, .6])) + ["=>", str(rng.choice(vals))]
+        ctx.emit(" ".join(parts))
+        held.append(name)
+
+    evcoll("ep", "max", "0", [1, 2, 3, 5], rng.randint(1, 3))            # finite everywhere
+    # +infinity somewhere (unless a minterm happens to cover everything: then the
+    # subtraction is defined and must simply succeed)
+    evcoll("eq", "min", "inf", [0, 1, 2, 4], rng.randint(1, 2))
+    evcoll("ex", "max", str(rng.choice([1, 2, 4])), [5, 6, 9], rng.randint(1, 3))   # root value >= 1
+
+    def subinf():
+        ctx.emit("applyinto ex minus ep eq")
+    misuses.append(subinf)
+    misuses.append(subinf)
     rng.shuffle(misuses)
     for mis in misuses[: rng.randint(3, 8)]:
         mis()
